@@ -595,11 +595,41 @@ func (g *c11gen) symbol() []byte {
 	}
 }
 
+// token ids a shortcut could key on: ALPHTokenId (all zero), all 0xff, and one-byte neighbours of both
+func c11specialIds() [][]byte {
+	var out [][]byte
+	zero := make([]byte, 32)
+	ff := make([]byte, 32)
+	for i := range ff {
+		ff[i] = 0xff
+	}
+	out = append(out, append([]byte{}, ALPHTokenId[:]...), zero, ff)
+	for _, base := range [][]byte{zero, ff} {
+		for _, pos := range []int{0, 1, 15, 30, 31} {
+			for _, x := range []byte{0x01, 0x80} {
+				b := append([]byte{}, base...)
+				b[pos] ^= x
+				out = append(out, b)
+			}
+		}
+	}
+	return out
+}
+
+// a token id: mostly random, sometimes one of the distinguished ones
+func (g *c11gen) tokenId() []byte {
+	if g.r.Intn(5) == 0 {
+		ids := c11specialIds()
+		return ids[g.r.Intn(len(ids))]
+	}
+	return g.bytesN(32)
+}
+
 func (g *c11gen) payload() []byte {
 	r := g.r
 	switch r.Intn(6) {
 	case 0:
-		return g.attestPayload(g.bytesN(32), 255, uint8(r.Intn(256)), g.pad32(g.symbol(), r.Intn(3)), g.pad32(g.symbol(), r.Intn(3)))
+		return g.attestPayload(g.tokenId(), 255, uint8(r.Intn(256)), g.pad32(g.symbol(), r.Intn(3)), g.pad32(g.symbol(), r.Intn(3)))
 	case 1:
 		p := g.bytesN(133)
 		p[0] = 1
@@ -661,6 +691,11 @@ func (g *c11gen) msgSweep() {
 	// every odd hex / length at every byte-vector position
 	var hexes []string
 	hexes = append(hexes, c11oddHex...)
+	hexes = append(hexes, strings.Repeat("00", 32), strings.Repeat("ff", 32), strings.Repeat("00", 31)+"01", "01"+strings.Repeat("00", 31),
+		"00000000", "ffffffff", "00000001", "02", "01", "00")
+	for _, id := range c11specialIds()[:3] {
+		hexes = append(hexes, hex.EncodeToString(g.attestPayload(id, 255, 9, g.pad32([]byte("NINE"), 0), g.pad32([]byte("Nine"), 0))))
+	}
 	for _, n := range []int{0, 1, 3, 4, 5, 31, 32, 33, 64, 65} {
 		s := hex.EncodeToString(g.bytesN(n))
 		hexes = append(hexes, s, strings.ToUpper(s))
@@ -876,12 +911,54 @@ func (g *c11gen) attest(n int) {
 	for _, chain := range []uint16{0, 1, 2, 254, 255, 256, 0xff00, 0xffff, 0x01ff} {
 		rt(g.bytesN(32), chain, 8, []byte("ALPH"), []byte("Alephium"), 0, 0)
 	}
+	// every distinguished token id (ALPHTokenId = 32 zero bytes, all 0xff, their one-byte neighbours) crossed with the
+	// canonical ALPH metadata of utils.go (18 / "ALPH" / "Alephium") and with other metadata: attestToken() takes the
+	// metadata from its caller, so whatever it encoded must come back, whichever token id it is for
+	metas := []struct {
+		dec       uint8
+		sym, name string
+	}{
+		{ALPHTokenInfo.Decimals, ALPHTokenInfo.Symbol, ALPHTokenInfo.Name},
+		{ALPHTokenInfo.Decimals + 1, ALPHTokenInfo.Symbol, ALPHTokenInfo.Name},
+		{ALPHTokenInfo.Decimals, "ALPx", ALPHTokenInfo.Name},
+		{ALPHTokenInfo.Decimals, ALPHTokenInfo.Symbol, "alephium"},
+		{0, "", ""},
+		{255, "TestToken", "TestToken-0"},
+		{8, "USDT", "Tether USD"},
+	}
+	for _, id := range c11specialIds() {
+		for _, mt := range metas {
+			for mode := 0; mode < 2; mode++ {
+				rt(id, 255, mt.dec, []byte(mt.sym), []byte(mt.name), mode, mode)
+			}
+		}
+		rt(id, 254, 18, []byte("ALPH"), []byte("Alephium"), 0, 0)
+	}
+	// ... and the canonical ALPH metadata with ordinary token ids (a shortcut keyed on the metadata instead)
+	for i := 0; i < 4; i++ {
+		rt(g.bytesN(32), 255, ALPHTokenInfo.Decimals, []byte(ALPHTokenInfo.Symbol), []byte(ALPHTokenInfo.Name), i%3, i%3)
+	}
 	for i := 0; i < n; i++ {
 		chain := uint16(255)
 		if r.Intn(10) == 0 {
 			chain = uint16(r.Intn(65536))
 		}
-		rt(g.bytesN(32), chain, uint8(r.Intn(256)), g.symbol(), g.symbol(), r.Intn(3), r.Intn(3))
+		rt(g.tokenId(), chain, uint8(r.Intn(256)), g.symbol(), g.symbol(), r.Intn(3), r.Intn(3))
+	}
+	// the other package-level constants of utils.go, each hit exactly with otherwise arbitrary fields:
+	// payload id byte (AttestTokenPayloadId 2, TransferTokenPayloadId 1, neighbours) - parseAttestToken must not care
+	for _, pid := range []byte{0, TransferTokenPayloadId, AttestTokenPayloadId, AttestTokenPayloadId + 1, 255} {
+		for _, id := range [][]byte{make([]byte, 32), g.bytesN(32)} {
+			p := g.attestPayload(id, 255, uint8(r.Intn(256)), g.pad32(g.symbol(), 0), g.pad32(g.symbol(), 0))
+			p[0] = pid
+			g.attParse("att-pid-", p, "")
+		}
+	}
+	// lengths AttestTokenPayloadLength-1 / exact / +1 and HashLength-related cut points, with a distinguished token id
+	for _, l := range []int{AttestTokenPayloadLength - 1, AttestTokenPayloadLength, AttestTokenPayloadLength + 1, 1 + HashLength, 1 + HashLength + 2} {
+		b := make([]byte, l)
+		copy(b, g.attestPayload(make([]byte, 32), 255, 7, g.pad32([]byte("ZERO"), 0), g.pad32([]byte("Zero Id"), 0)))
+		g.attParse("att-len-", b, "")
 	}
 	// raw inputs: lengths around 100, every single-byte change of a valid payload, random bytes
 	valid := g.attestPayload(g.bytesN(32), 255, 18, g.pad32([]byte("TestToken"), 0), g.pad32([]byte("TestToken-0"), 0))
@@ -903,6 +980,10 @@ func (g *c11gen) attest(n int) {
 		b := g.bytesN(100)
 		if r.Intn(4) != 0 {
 			b[33], b[34] = 0, 255
+		}
+		if r.Intn(4) == 0 {
+			copy(b[1:33], g.tokenId())
+			b[0] = AttestTokenPayloadId
 		}
 		if r.Intn(3) == 0 {
 			// NUL runs at the ends of symbol / name
